@@ -271,12 +271,10 @@ spif_mbuff_init_from_fd(spif_mbuff_t self, int fd)
         self->len = 0;
         self->buff = (spif_byteptr_t) MALLOC(self->size);
 
-        for (p = self->buff; (cnt = read(fd, p, buff_inc)) > 0; p += buff_inc) {
+        for (p = self->buff; ((cnt = read(fd, p, buff_inc)) > 0) && (cnt != (size_t) -1); p = self->buff + self->len) {
             self->len += cnt;
-            if (cnt < buff_inc) {
-                break;
-            } else {
-                self->size += buff_inc;
+            if ((size_t) (self->size - self->len) < buff_inc) {
+                self->size = self->len + buff_inc;
                 self->buff = (spif_byteptr_t) REALLOC(self->buff, self->size);
             }
         }
